@@ -1,0 +1,22 @@
+//go:build verif
+
+// Machine-checked contracts for package fri (comment-only, build tag `verif`).
+package fri
+
+//@ func (f *Chip) GetInstance(zeta gl.QuadraticExtensionVariable) (res InstanceInfo)
+//@   props C17
+//@   circuit
+//@   flag trusted
+//@   ensures true
+
+//@ func (f *Chip) ToOpenings(c variables.OpeningSet) (res Openings)
+//@   props C17
+//@   circuit
+//@   flag trusted
+//@   ensures true
+
+//@ func (f *Chip) VerifyFriProof(instance InstanceInfo, openings Openings, friChallenges *variables.FriChallenges, initialMerkleCaps []variables.FriMerkleCap, friProof *variables.FriProof)
+//@   props C17
+//@   circuit
+//@   flag trusted
+//@   ensures true
